@@ -79,6 +79,7 @@ impl IndexData {
        loops={0: '''            invariant
                 out.sunk() == ser_entries_onto(ser_ih_onto(old(out).sunk(), self.index_header), self.index_entries@.take(vi.index@)),
                 0 <= vi.index@ <= self.index_entries@.len(),
+                out.infallible() == old(out).infallible(),
 '''},
        before=[('self.index_header.write(out)?;', '''proof {
             reveal(ser_header_onto);
